@@ -47,6 +47,7 @@ type Characteristic struct {
 func NewCharacteristic(typ string) *Characteristic {
 	return &Characteristic{
 		Type:                 typ,
+		Perms:                PermsAll(),
 		connValueUpdateFuncs: make([]ConnChangeFunc, 0),
 		valueChangeFuncs:     make([]ChangeFunc, 0),
 	}
